@@ -51,7 +51,7 @@ public:
 
   double randC() const
   {
-    return RandomTools::randGaussian(mu_, sigma_);
+    return RandomTools::randGaussian(mu_, sigma_ * sigma_); // randGaussian takes the variance
   }
 
   double qProb(double x) const;
